@@ -108,7 +108,7 @@ def check(prop, tier, seed):
     rep = Report(prop, tier, seed)
     per_opt = 3 if tier == "quick" else 30
     items = [make_item(seed, k) for k in range(84 * per_opt)]
-    for rep_ in range(1 if tier == "quick" else 6):
+    for rep_ in range(2 if tier == "quick" else 8):
         items += [make_item(seed, 100000 + 1000 * rep_ + j, variant=v) for j, v in enumerate(universe.all_optional_variants())]
     res = runner.run_parallel("pvmon.props.c08", "work", items, {})
     opts_seen = set()
